@@ -92,8 +92,13 @@ func init() {
 					for _, first := range lv {
 						out = append(out, c15Spec{Kind: "gw", Soil: so, Route: route, First: first, Levels: lv, D: d})
 					}
+					// tables at and just below the surface (0 dm = water at the surface)
+					top := []float64{0, 0.4, 2, 25}
+					for _, first := range top {
+						out = append(out, c15Spec{Kind: "gw", Soil: so, Route: route, First: first, Levels: top, D: d})
+					}
 				}
-				for _, hl := range [][2]int{{1, int(n)}, {2, int(n) + 4}} {
+				for _, hl := range [][2]int{{1, int(n)}, {2, int(n) + 4}, {0, 6}} {
 					for _, ph := range []int{0, 200} {
 						out = append(out, c15Spec{Kind: "sinus", Soil: so, Route: "table", GH: hl[0], GL: hl[1], Phase: ph})
 					}
@@ -174,9 +179,12 @@ func (l *c15Probe) check(g *hermes.GlobalVarsMain, zeit int) {
 						if first < 0 {
 							first = i
 						}
-						extra := i+1 == int(math.Round(math.Max(g.GRW, 1))) && old.p.w[i] == old.p.por[i] && old.p.wmin[i] == cur.wmin[i] && old.p.por[i] == cur.por[i] && old.p.wnor[i] == cur.wnor[i]
+						extra := i+1 == int(math.Round(math.Max(g.GRW, 1))) && math.Abs(old.p.w[i]-old.p.por[i]) <= 1e-12 && old.p.wmin[i] == cur.wmin[i] && old.p.por[i] == cur.por[i] && old.p.wnor[i] == cur.wnor[i]
 						if !extra {
 							known = false
+							if os.Getenv("C15_DEBUG") != "" {
+								fmt.Printf("DEBUG layer %d grw=%v old w=%v por=%v wmin=%v wnor=%v cur w=%v por=%v wmin=%v wnor=%v firstSeg=%v\n", i+1, g.GRW, old.p.w[i], old.p.por[i], old.p.wmin[i], old.p.wnor[i], cur.w[i], cur.por[i], cur.wmin[i], cur.wnor[i], old.firstSegment)
+							}
 						}
 					}
 				}
